@@ -57,8 +57,10 @@ fn dec_ops(req: &str) -> Vec<Op> {
 
 const SCRIPT_CMDS: [&str; 9] = ["array_is_empty", "array_contains", "array_concat", "array_join", "map_contains_key", "map_contains_value", "map_is_empty", "set_from_array", "set_is_empty"];
 
-/// script commands the model can run from source (Sdk/ScriptRun.lean, theorems C12_script_*_correct)
-const SOURCE_RUN: [&str; 7] = ["array_is_empty", "map_is_empty", "set_is_empty", "map_contains_key", "set_from_array", "array_concat", "map_contains_value"];
+/// script commands the model runs from source (Sdk/ScriptRun.lean; lean/DuckModel/Drv/C12S.lean
+/// `nameOfCmd`): all nine collection scripts (array_contains / array_join with calc, strlen,
+/// substring, is_empty inside their bodies)
+const SOURCE_RUN: [&str; 9] = ["array_is_empty", "map_is_empty", "set_is_empty", "map_contains_key", "set_from_array", "array_concat", "map_contains_value", "array_contains", "array_join"];
 
 fn handles(ctx: &Context) -> Option<&HashMap<String, StateValue>> {
     match ctx.state.get("handles") {
@@ -366,6 +368,8 @@ const ODD_VALUES: [&str; 30] = [
 ];
 /// word-like values
 const SAFE_VALUES: [&str; 14] = ["a", "b", "c", "x y", "A_1.-", "ü", "日本語", "handle:abcdefghijklmnopqrst", "7", "0", "key 1", "Z", "é è", "long-value_with.many-parts"];
+/// separators of the source-run array_join: empty, blank, longer than one char, multi-byte
+const JOIN_SEPS: [&str; 12] = [",", ", ", "", "-", "ü", " ", "日本", "--", " | ", "🦆🦆", "ab", "é "];
 const INDEXES: [&str; 14] = ["-1", "x", "", "+1", "1.0", " 1", "1 ", "18446744073709551616", "18446744073709551615", "007", "+", "-0", "٣", "0x1"];
 const RANGE_ENDS: [&str; 12] = ["0", "1", "3", "-2", "+2", "5", "x", "", "9223372036854775808", "-9223372036854775808", "1.5", "-"];
 
@@ -493,14 +497,9 @@ impl<'a> Gen<'a> {
             c = [0, 9, 16][self.rng.below(3)];
         } else if self.srun {
             if self.rng.chance(1, 3) {
-                c = [33, 35, 37, 38, 39, 40, 41][self.rng.below(7)];
+                // array_contains / array_join (loops + calc / strlen / substring) twice as often
+                c = [33, 34, 34, 35, 36, 36, 37, 38, 39, 40, 41][self.rng.below(11)];
             }
-            // array_contains / array_join are not source-runnable (calc, strlen, substring)
-            c = match c {
-                34 => 33,
-                36 => 41,
-                other => other,
-            };
         }
         match c {
             0 if can_create => {
@@ -715,9 +714,24 @@ impl<'a> Gen<'a> {
                 self.push("array_is_empty", vec![h]);
             }
             34 if self.with_scripts => {
-                let (h, _) = self.handle(Kind::Arr);
-                let v = self.value();
-                self.push("array_contains", vec![h, v]);
+                let (h, t) = self.handle(Kind::Arr);
+                // half of the time (when known) a value the array was created with: found at the
+                // first / a middle / the last index, repeated cells
+                let mut v = self.value();
+                if let Some(i) = t {
+                    let o = self.tracks[i].op;
+                    if self.ops[o].cmd == "array" && !self.ops[o].args.is_empty() && self.rng.chance(1, 2) {
+                        let k = self.rng.below(self.ops[o].args.len());
+                        v = self.ops[o].args[k].clone();
+                        self.tags.push("array-contains-cell-of-creation");
+                    }
+                }
+                if self.srun && self.rng.chance(1, 12) {
+                    // too few arguments
+                    self.push("array_contains", vec![h]);
+                } else {
+                    self.push("array_contains", vec![h, v]);
+                }
             }
             35 if self.with_scripts && can_create => {
                 let k = self.rng.below(3);
@@ -731,8 +745,19 @@ impl<'a> Gen<'a> {
             }
             36 if self.with_scripts => {
                 let (h, _) = self.handle(Kind::Arr);
-                let sep = *self.rng.pick(&[",", ", ", "", "-", "ü", " "]);
-                self.push("array_join", vec![h, Arg::Lit(sep.to_string())]);
+                if self.srun {
+                    // the source-run model carries the body's own reading of the separator
+                    // (`if not is_empty <separator>` re-parses it as script text): every pool value
+                    let sep = if self.rng.chance(1, 2) { self.rng.pick_s(&JOIN_SEPS) } else { self.rng.pick_s(&ODD_VALUES) };
+                    if self.rng.chance(1, 12) {
+                        self.push("array_join", vec![h]);
+                    } else {
+                        self.push("array_join", vec![h, Arg::Lit(sep.to_string())]);
+                    }
+                } else {
+                    let sep = *self.rng.pick(&[",", ", ", "", "-", "ü", " "]);
+                    self.push("array_join", vec![h, Arg::Lit(sep.to_string())]);
+                }
             }
             37 if self.with_scripts => {
                 let (h, _) = self.handle(Kind::Map);
@@ -829,6 +854,151 @@ fn srun_fixed(base: &[Case]) -> Vec<Case> {
             Op { cmd: "array".into(), args: vec![lit("after")] },
         ];
         out.push(Case { req: enc_ops_as("srun", &ops), in_domain: true, nontrivial: true, tags: vec!["source-run-scripts", "script-commands"] });
+    }
+    out.extend(srun_array_scripts());
+    out
+}
+
+/// array_contains / array_join from source: found at index 0 / middle / last / absent, repeated
+/// cells, empty array, empty / blank / multi-byte / long cells and separators (substring cuts at a
+/// BYTE offset), every pool value as cell and as separator, handles that are no arrays, missing
+/// handles, too few arguments, calls in a row (scope variables of the previous call, the for-in
+/// state after `argument::1 = set`)
+fn srun_array_scripts() -> Vec<Case> {
+    let mut out = vec![];
+    let mut add = |ops: Vec<(&str, Vec<Arg>)>, tag: &'static str| {
+        let ops: Vec<Op> = ops.into_iter().map(|(c, a)| Op { cmd: c.to_string(), args: a }).collect();
+        out.push(Case { req: enc_ops_as("srun", &ops), in_domain: true, nontrivial: true, tags: vec!["source-run-scripts", "script-commands", tag] });
+    };
+    let r0 = || Arg::Ref(0);
+    // positions
+    add(
+        vec![
+            ("array", vec![lit("a"), lit("b"), lit("c"), lit("b"), lit("a"), lit("")]),
+            ("array_contains", vec![r0(), lit("a")]),
+            ("array_contains", vec![r0(), lit("b")]),
+            ("array_contains", vec![r0(), lit("c")]),
+            ("array_contains", vec![r0(), lit("")]),
+            ("array_contains", vec![r0(), lit("absent")]),
+            ("array_contains", vec![r0(), lit("A")]),
+            ("array_contains", vec![r0(), lit("a"), lit("extra")]),
+            ("array_contains", vec![r0()]),
+            ("array_contains", vec![]),
+            ("array_contains", vec![r0(), lit("b")]),
+            ("array_length", vec![r0()]),
+            ("array_join", vec![r0(), lit("+")]),
+        ],
+        "array-contains-positions",
+    );
+    // a long array: the counter goes through calc 11 times
+    let many: Vec<Arg> = (0..12).map(|i| lit(&format!("v{}", i))).collect();
+    add(
+        vec![
+            ("array", many),
+            ("array_contains", vec![r0(), lit("v11")]),
+            ("array_contains", vec![r0(), lit("v10")]),
+            ("array_contains", vec![r0(), lit("v0")]),
+            ("array_contains", vec![r0(), lit("v12")]),
+            ("array_join", vec![r0(), lit("")]),
+            ("array_join", vec![r0(), lit("日本")]),
+        ],
+        "array-contains-long",
+    );
+    // numbers (range cells are 64 bit numbers), handles as cells
+    add(
+        vec![
+            ("range", vec![lit("-2"), lit("3")]),
+            ("array_contains", vec![r0(), lit("-2")]),
+            ("array_contains", vec![r0(), lit("2")]),
+            ("array_contains", vec![r0(), lit("3")]),
+            ("array_contains", vec![r0(), lit("+1")]),
+            ("array_join", vec![r0(), lit(",")]),
+            ("array", vec![r0(), lit("x"), r0()]),
+            ("array_contains", vec![Arg::Ref(6), r0()]),
+            ("array_contains", vec![Arg::Ref(6), lit("x")]),
+            ("array_join", vec![Arg::Ref(6), lit(" ")]),
+            ("array_contains", vec![r0(), Arg::Ref(6)]),
+        ],
+        "array-scripts-numbers-handles",
+    );
+    // empty array, no array
+    add(
+        vec![
+            ("array", vec![]),
+            ("array_contains", vec![r0(), lit("a")]),
+            ("array_contains", vec![r0(), lit("")]),
+            ("array_join", vec![r0(), lit(",")]),
+            ("array_join", vec![r0(), lit("")]),
+            ("array_join", vec![r0()]),
+            ("array_join", vec![]),
+            ("map", vec![]),
+            ("map_put", vec![Arg::Ref(7), lit("k"), lit("v")]),
+            ("set_new", vec![lit("m")]),
+            ("array_contains", vec![Arg::Ref(7), lit("v")]),
+            ("array_contains", vec![Arg::Ref(9), lit("m")]),
+            ("array_join", vec![Arg::Ref(7), lit(",")]),
+            ("array_join", vec![Arg::Ref(9), lit(",")]),
+            ("array_contains", vec![lit("nope"), lit("a")]),
+            ("array_contains", vec![lit(""), lit("")]),
+            ("array_contains", vec![lit("handle:abcdefghijklmnopqrst"), lit("a")]),
+            ("array_join", vec![lit("nope"), lit(",")]),
+            ("array_join", vec![lit(""), lit(",")]),
+            ("array_join", vec![lit("handle:abcdefghijklmnopqrst"), lit(",")]),
+            ("release", vec![r0()]),
+            ("array_contains", vec![r0(), lit("a")]),
+            ("array_join", vec![r0(), lit(",")]),
+            ("__foreign", vec![lit("3")]),
+            ("array_contains", vec![Arg::Ref(23), lit("a")]),
+            ("array_join", vec![Arg::Ref(23), lit(",")]),
+            ("array", vec![lit("after")]),
+            ("array_join", vec![Arg::Ref(26), lit(",")]),
+        ],
+        "array-scripts-no-array",
+    );
+    // array_join twice and more in a row: scope::array_join::string is read before it is set
+    add(
+        vec![
+            ("array", vec![lit("a"), lit("b")]),
+            ("array_join", vec![r0(), lit(",")]),
+            ("array_join", vec![r0(), lit(",")]),
+            ("array", vec![]),
+            ("array_join", vec![Arg::Ref(3), lit(",")]),
+            ("array_join", vec![r0(), lit("")]),
+            ("array_join", vec![Arg::Ref(3), lit("")]),
+            ("array_join", vec![lit("nope"), lit(",")]),
+            ("array_join", vec![r0(), lit("--")]),
+            ("array_contains", vec![r0(), lit("a")]),
+            ("array_contains", vec![r0(), lit("a")]),
+            ("array_contains", vec![r0(), lit("b")]),
+            ("array_contains", vec![r0(), lit("zz")]),
+            ("array_contains", vec![r0(), lit("a")]),
+            ("array_join", vec![r0(), lit(",")]),
+        ],
+        "array-scripts-in-a-row",
+    );
+    // every pool value: as the only cell, among cells, as separator, as searched value
+    for v in SAFE_VALUES.iter().chain(ODD_VALUES.iter()).chain(JOIN_SEPS.iter()) {
+        add(
+            vec![
+                ("array", vec![lit(v)]),
+                ("array", vec![lit("first"), lit(v), lit(v), lit("last")]),
+                ("array_contains", vec![r0(), lit(v)]),
+                ("array_contains", vec![Arg::Ref(1), lit(v)]),
+                ("array_contains", vec![Arg::Ref(1), lit("last")]),
+                ("array_join", vec![r0(), lit(v)]),
+                ("array_join", vec![Arg::Ref(1), lit(v)]),
+                ("array_join", vec![Arg::Ref(1), lit(", ")]),
+                ("array_join", vec![Arg::Ref(1), lit("")]),
+                ("array_join", vec![Arg::Ref(1), lit("ü")]),
+                ("array", vec![lit(""), lit("")]),
+                ("array_join", vec![Arg::Ref(10), lit(v)]),
+                ("array_contains", vec![Arg::Ref(10), lit(v)]),
+                ("array_contains", vec![lit(v), lit(v)]),
+                ("array_join", vec![lit(v), lit(v)]),
+                ("array_join", vec![Arg::Ref(1), lit(v)]),
+            ],
+            "array-scripts-pool-value",
+        );
     }
     out
 }
@@ -1155,7 +1325,7 @@ impl Prop for C12Prop {
         "C12"
     }
     fn rule(&self) -> &'static str {
-        "Histories of 1..40 (quick) / 1..80 (thorough) collection commands run from an empty handle table through the real SDK (run_instruction, every value passed in a variable as ${v}), at most 6 live handles of mixed kinds (arrays incl. range / map_keys / set_to_array / array_concat results, maps, sets, nested handles as values). Handle arguments: 65% live right kind, 15% live wrong kind, 10% released, 10% unknown / handle-looking / empty. Indexes inside, at and beyond the end, plus non-numeric / negative / signed / overflowing spellings. Values (cells, keys, set members, separators) from a pool with '', spaces, multi-byte text, handle-looking strings, true/false, numerals, $x ${..} %{..} # quotes CR LF TAB backslash leading '=' and word-like strings; they reach the native AND the nine script-implemented commands alike. Three families: (a) the 27 native commands only, (b) all 36 commands, (c) `srun` requests (1 in 4): natives + array_is_empty / map_is_empty / set_is_empty / map_contains_key / set_from_array / array_concat / map_contains_value, which the model executes FROM THEIR REGENERATED script.ds (AliasCommand::run over eval_instructions over the parsed text, native callees and for-in / if / end / not transcribed, flow-control state kept across invocations) instead of by their specified function - so the recorded array_concat-after-error behaviour is the MODEL's behaviour in this family; every fixed history whose script commands are of these seven is also sent as srun. Fixed cases: every command x {array, map, set, released, unknown, empty handle} followed by a complete read-out; verbatim round trips of every pool value through array/map/set natives; all index spellings; range end points incl. i64 limits; recursive release over nesting, sharing, cycles and self reference. After each history the whole real handle table is read from Context.state (real handles renamed by first appearance, hash-ordered things sorted) and re-read through array_length/array_get, map_size/map_get, set_size/set_contains. The list made by map_keys / set_to_array is sorted in place by the harness (hash iteration order is unspecified). Literal values of the form handle:<decimal> are not generated (that is the model's name for the k-th handle; real handles are renamed to it). Non-trivial = at least 5 commands; distinct = distinct request."
+        "Histories of 1..40 (quick) / 1..80 (thorough) collection commands run from an empty handle table through the real SDK (run_instruction, every value passed in a variable as ${v}), at most 6 live handles of mixed kinds (arrays incl. range / map_keys / set_to_array / array_concat results, maps, sets, nested handles as values). Handle arguments: 65% live right kind, 15% live wrong kind, 10% released, 10% unknown / handle-looking / empty. Indexes inside, at and beyond the end, plus non-numeric / negative / signed / overflowing spellings. Values (cells, keys, set members, separators) from a pool with '', spaces, multi-byte text, handle-looking strings, true/false, numerals, $x ${..} %{..} # quotes CR LF TAB backslash leading '=' and word-like strings; they reach the native AND the nine script-implemented commands alike. Three families: (a) the 27 native commands only, (b) all 36 commands, (c) `srun` requests (1 in 4): natives + all nine script commands (array_is_empty / map_is_empty / set_is_empty / map_contains_key / set_from_array / array_concat / map_contains_value / array_contains / array_join), which the model executes FROM THEIR REGENERATED script.ds (AliasCommand::run over eval_instructions over the parsed text, native callees - incl. calc, strlen, substring, is_empty - and for-in / if / end / not transcribed, flow-control state kept across invocations, the caller's variables a<k>_<j> / o<k> mirrored because a command condition re-reads its arguments as script text) instead of by their specified function - so the recorded array_concat-after-error behaviour is the MODEL's behaviour in this family, and array_join gets every pool value as separator here (in the other two families only separators on which the body's re-read of the separator is harmless); every fixed history with a script command is also sent as srun, plus dedicated array_contains / array_join histories (value at index 0 / middle / last / absent, repeated cells, 12 cells, number cells, empty array, empty / blank / multi-byte / long cells and separators, handles of other kinds, released / missing handles, too few arguments, calls in a row). Fixed cases: every command x {array, map, set, released, unknown, empty handle} followed by a complete read-out; verbatim round trips of every pool value through array/map/set natives; all index spellings; range end points incl. i64 limits; recursive release over nesting, sharing, cycles and self reference. After each history the whole real handle table is read from Context.state (real handles renamed by first appearance, hash-ordered things sorted) and re-read through array_length/array_get, map_size/map_get, set_size/set_contains. The list made by map_keys / set_to_array is sorted in place by the harness (hash iteration order is unspecified). Literal values of the form handle:<decimal> are not generated (that is the model's name for the k-th handle; real handles are renamed to it). Non-trivial = at least 5 commands; distinct = distinct request."
     }
     fn budget(&self, tier: Tier) -> usize {
         match tier {
